@@ -1,9 +1,9 @@
 """C04 - Damaged or substituted repository objects are never restored silently."""
-from specs import restore, snapbody
+from specs import restore, snapbody, c18
 
 LEVEL = 'proof'
 UNITS = [restore.download_chunk_unit('C04', restore.c04_download_chunk_post('C04')),
-         snapbody.download_snapshot_unit('C04'), snapbody.decrypt_body_unit('C04')]
+         snapbody.download_snapshot_unit('C04'), snapbody.decrypt_body_unit('C04')] + c18.units('C04')
 BOUNDED = []
 TRUSTED = [
     'vf symbolic executor (/verif/vf): encoding of the Python subset (DESIGN 2.2)',
